@@ -6,6 +6,7 @@ import binascii
 import itertools
 import os
 import re
+from tables import read_src as _read_src
 from hv import hx, V, REPO
 from props import c18_ws_common as common
 
@@ -53,7 +54,7 @@ def fmt_dec(r):
 
 
 def alphabet_check(ctx):
-    src = open(os.path.join(REPO, 'humphrey-ws/src/util/base64.rs'), encoding='utf-8').read()
+    src = _read_src(os.path.join(REPO, 'humphrey-ws/src/util/base64.rs'))
     m = re.search(r'const ALPHABET: \[u8; 64\] = \*b"([^"]*)";', src)
     got = m.group(1).encode() if m else None
     model_src = open(os.path.join(V, 'coq/theories/Base64.v'), encoding='utf-8').read()
